@@ -216,6 +216,7 @@ func runScenario(rep *hx.Report, m *hx.Model, sc scenario) {
 	}
 	mismatch := func(what string) {
 		rep.Add(hx.Finding{Kind: "mismatch", Property: "C19", Signature: "taskpool-model", What: what + " [" + p.state() + "]", Replay: replay})
+		m = nil // the model is out of step from here on: go on with the oracle alone
 	}
 	M := sc.Bound - 1
 	if m != nil {
@@ -236,7 +237,53 @@ func runScenario(rep *hx.Report, m *hx.Model, sc scenario) {
 		if !ok {
 			mismatch(fmt.Sprintf("%s: model concurrent=%d queue=%d started=%d (dispatcher %s)", when, t.c, t.q, t.started, t.d))
 		}
-		return ok
+		return true
+	}
+	// finishFill opens the gate and compares the completed state
+	finishFill := func(label string, n int, gate chan struct{}) bool {
+		target := atomic.LoadInt64(&p.ended)
+		close(gate)
+		if !waitFor(func() bool { return atomic.LoadInt64(&p.ended) >= target+int64(n) }) {
+			oracle("task-never-ran", fmt.Sprintf("%s: %d blocked tasks were released, %d ended", label, n, atomic.LoadInt64(&p.ended)-target))
+			return false
+		}
+		if m != nil {
+			agree(label+": after the gate opened", ask(m, "finish"))
+		}
+		return true
+	}
+	// fillBlocked: the model says that the next Go call (task id) blocks: queue full, every runner busy. It must return
+	// once the gate opens; in the model the blocked submitter's send goes through after the running tasks ended.
+	fillBlocked := func(label string, n int, gate chan struct{}, id int) bool {
+		ret := make(chan struct{})
+		go func() {
+			p.submit(p.task(id, nil))
+			close(ret)
+		}()
+		select {
+		case <-ret:
+			mismatch(label + ": a Go call returned that blocks in the model (queue full, every runner busy)")
+		case <-time.After(3 * time.Millisecond):
+		}
+		target := atomic.LoadInt64(&p.ended)
+		close(gate)
+		select {
+		case <-ret:
+		case <-time.After(deadline):
+			oracle("go-hangs", label+": a Go call blocked on a full queue did not return after the running tasks ended")
+			return false
+		}
+		if !waitFor(func() bool { return atomic.LoadInt64(&p.ended) >= target+int64(n)+1 }) {
+			oracle("task-never-ran", fmt.Sprintf("%s: %d tasks were released, %d ended", label, n+1, atomic.LoadInt64(&p.ended)-target))
+			return false
+		}
+		if m != nil {
+			ask(m, "finish")
+			ask(m, "enq %d", id)
+			ask(m, "drecv %d", id) // Q = 0: rendezvous (no effect otherwise)
+			agree(label+": after the gate opened (with one Go call that had blocked)", ask(m, "finish"))
+		}
+		return true
 	}
 	// fill: every task blocks on the gate; state after each Go is determined
 	fill := func(label string) bool {
@@ -253,11 +300,14 @@ func runScenario(rep *hx.Report, m *hx.Model, sc scenario) {
 		for k := 0; k < limit; k++ {
 			nextID++
 			id := nextID
+			if m == nil && n >= admitted(sc.Bound)+sc.Queue {
+				break
+			}
 			if m != nil {
 				t := ask(m, "go %d", id)
 				if t.extra == "blocked" {
 					// this Go call would block: undo nothing in the implementation, rebuild the model state without it
-					return fillReplay(rep, m, p, sc, label, n, gate, id, agree, oracle)
+					return fillBlocked(label, n, gate, id)
 				}
 				if !p.submitTimed(p.task(id, func() { <-gate })) {
 					oracle("go-hangs", fmt.Sprintf("%s: Go #%d does not return although a runner or a queue slot is free (model: %s)", label, n+1, t.extra))
@@ -268,9 +318,6 @@ func runScenario(rep *hx.Report, m *hx.Model, sc scenario) {
 					return false
 				}
 			} else {
-				if n >= admitted(sc.Bound)+sc.Queue {
-					break
-				}
 				if !p.submitTimed(p.task(id, func() { <-gate })) {
 					oracle("go-hangs", fmt.Sprintf("%s: Go #%d does not return although a runner or a queue slot is free", label, n+1))
 					return false
@@ -278,7 +325,7 @@ func runScenario(rep *hx.Report, m *hx.Model, sc scenario) {
 				n++
 			}
 		}
-		return finishFill(rep, m, p, label, n, gate, agree, oracle)
+		return finishFill(label, n, gate)
 	}
 	if !fill("fresh pool") {
 		return
@@ -401,7 +448,6 @@ func runScenario(rep *hx.Report, m *hx.Model, sc scenario) {
 		}
 		if mx > admitted(sc.Bound) {
 			mismatch(fmt.Sprintf("%s: %d tasks were running at once, the model's bound is max(1, maxConcurrent) = %d", when, mx, admitted(sc.Bound)))
-			return false
 		}
 		return true
 	}
@@ -501,61 +547,9 @@ func runScenario(rep *hx.Report, m *hx.Model, sc scenario) {
 	}
 }
 
-// finishFill opens the gate and compares the completed state
-func finishFill(rep *hx.Report, m *hx.Model, p *pool, label string, n int, gate chan struct{}, agree func(string, tsum) bool, oracle func(string, string)) bool {
-	target := atomic.LoadInt64(&p.ended)
-	// tasks submitted in this fill: n; all must end
-	close(gate)
-	if !waitFor(func() bool { return atomic.LoadInt64(&p.ended) >= target+int64(n) }) {
-		oracle("task-never-ran", fmt.Sprintf("%s: %d blocked tasks were released, %d ended", label, n, atomic.LoadInt64(&p.ended)-target))
-		return false
-	}
-	if m != nil {
-		t := ask(m, "finish")
-		return agree(label+": after the gate opened", t)
-	}
-	return true
-}
-
-// fillReplay: the model said the next Go would block; the implementation got n tasks. The model already holds the
-// blocked submitter (in the select): let it give way by completing everything (the send then succeeds).
-func fillReplay(rep *hx.Report, m *hx.Model, p *pool, sc scenario, label string, n int, gate chan struct{}, id int, agree func(string, tsum) bool, oracle func(string, string)) bool {
-	// implementation: submit the blocking Go from a goroutine; it must return once the gate opens
-	ret := make(chan struct{})
-	go func() {
-		p.submit(p.task(id, nil))
-		close(ret)
-	}()
-	select {
-	case <-ret:
-		rep.Add(hx.Finding{Kind: "mismatch", Property: "C19", Signature: "taskpool-model", What: label + ": a Go call returned that blocks in the model (queue full, every runner busy) [" + p.state() + "]",
-			Replay: map[string]interface{}{"harness": "taskpool", "scenario": sc}})
-		return false
-	case <-time.After(3 * time.Millisecond):
-	}
-	target := atomic.LoadInt64(&p.ended)
-	close(gate)
-	select {
-	case <-ret:
-	case <-time.After(deadline):
-		oracle("go-hangs", label+": a Go call blocked on a full queue did not return after the running tasks ended")
-		return false
-	}
-	if !waitFor(func() bool { return atomic.LoadInt64(&p.ended) >= target+int64(n)+1 }) {
-		oracle("task-never-ran", fmt.Sprintf("%s: %d tasks were released, %d ended", label, n+1, atomic.LoadInt64(&p.ended)-target))
-		return false
-	}
-	// model: complete what runs, then the blocked submitter's send goes through, then complete again
-	ask(m, "finish")
-	ask(m, "enq %d", id)
-	ask(m, "drecv %d", id) // Q = 0: rendezvous (no effect otherwise)
-	t := ask(m, "finish")
-	return agree(label+": after the gate opened (with one Go call that had blocked)", t)
-}
-
 // ---------- Timer.Async under the real scheduler ----------
 func asyncPart(rep *hx.Report, seed int64, rounds int) {
-	for round := 0; round < rounds && !rep.TooMany(); round++ {
+	for round := 0; round < rounds && !rep.TooMany() && len(rep.Findings) < 4; round++ {
 		r := rand.New(rand.NewSource(seed*31 + int64(round)))
 		tm := timer.New("verif")
 		producers := 1 + r.Intn(4)
